@@ -19,6 +19,10 @@ var shortSources = []string{
 	`print "a\"b\\"`, "print @", "print 12ab", `print "abc`, "print 1 !", "print \"x\"y", "print 1.", "print 1e+",
 	"print )\nprint (\nvar", "eval 1 ;; eval 2", "print 1\r\nprint 2\r\n", "#only comment", "", "\n\n", "print \"\xff\xfe\"",
 	"print 1 \xc2", "\xe4\xb8", "print é", "var é = 1", "print -1--1", "print 1->2", "def a{def b{x=TYPE+NAME}}",
+	// a multi-byte layout character directly after a token that is complete without look-ahead (one-character
+	// tokens, complete two-character operators), and at offset 0; other multi-byte characters in the same places
+	"\u0085print 1", "\u00a0\u0085print 1", "def t {\u00a0f = 1 }\u0085", "print (\u00851)\u00a0", "print 1 ==\u00a02", "print 1 +\u00852*\u00a03",
+	"def t { a = 1;\u0085b = 2 }", "bind t:\u00a0all ->\u0085slice", "print 1 <=\u00852", "print (世)", "print 1 +世", "{\U0001F600}", "print 1 !=\u00a01",
 }
 
 func randomPartition(r *rand.Rand, b []byte, maxParts int, withEmpty bool) [][]byte {
@@ -118,6 +122,33 @@ func streamPartitions(ctx *Ctx) *Result {
 			}
 			if i < 3 && j == 0 {
 				res.Sample(fmt.Sprintf("source %q reads %s", string(src), chunksArg(parts)))
+			}
+		}
+		// every multi-byte character cut at each of its inner byte boundaries, with zero, one or two
+		// reads of zero bytes at the cut, and (for characters of three or four bytes) cut twice
+		for k := 0; k < len(src); k++ {
+			if src[k] < 0xC0 {
+				continue
+			}
+			n := 1
+			for k+n < len(src) && src[k+n]&0xC0 == 0x80 && n < 4 {
+				n++
+			}
+			for c := 1; c < n; c++ {
+				for empties := 0; empties <= 2; empties++ {
+					parts := [][]byte{src[:k+c]}
+					for e := 0; e < empties; e++ {
+						parts = append(parts, nil)
+					}
+					parts = append(parts, src[k+c:])
+					checkPartition(res, d, src, parts, whole)
+					res.Count("cut.inside-rune", 1)
+				}
+				if c+1 < n {
+					parts := [][]byte{src[:k+c], src[k+c : k+c+1], nil, src[k+c+1:]}
+					checkPartition(res, d, src, parts, whole)
+					res.Count("cut.inside-rune-twice", 1)
+				}
 			}
 		}
 		// model of the chunked parser (lexer window + parser) on one random partition
